@@ -66,18 +66,29 @@ theorem histZero_historySet {r : Nat} {s : St} (h : HistZero r s) (i v : Nat) (h
   rw [getD_historySet, if_neg (by omega)]
   exact h j hj
 
+/-- what `enter` does when the flag poll does not interfere: count the node, record the hash (and possibly emit a
+periodic info line) -/
+def EnterShape (s : St) (hash : UInt64) : Prop :=
+  ∃ o, enter s hash = { s with negamaxNodes := s.negamaxNodes + 1,
+                               history := historySet s.history (plyClock s.board) hash.toNat, out := o }
+
+theorem enterShape_of_noFlag {s : St} (h : pollFlag s = false) (hash : UInt64) : EnterShape s hash :=
+  ⟨s.out, by rw [enter_of_noFlag h]⟩
+
 theorem enter_history_of_noFlag {s : St} (h : pollFlag s = false) (hash : UInt64) :
     (enter s hash).history = historySet s.history (plyClock s.board) hash.toNat := by
   rw [enter_of_noFlag h]
 
 /-- **the repetition return is not taken**: fresh history below the root, non-zero hash, at most three plies below the
 root -/
-theorem isRep_enter_false {r : Nat} {s : St} (hz : HistZero r s) (hnf : pollFlag s = false) (hash : UInt64) (ply : Nat)
+theorem isRep_enter_false' {r : Nat} {s : St} (hz : HistZero r s) (hash : UInt64) (hent : EnterShape s hash) (ply : Nat)
     (hlo : r ≤ plyClock s.board) (hhi : plyClock s.board ≤ r + 3) (hne : hash.toNat ≠ 0) :
     isRep (enter s hash) ply = false := by
   unfold isRep
   have hb : (enter s hash).board = s.board := enter_board s hash
-  rw [hb, enter_history_of_noFlag hnf]
+  obtain ⟨o, he⟩ := hent
+  have hh : (enter s hash).history = historySet s.history (plyClock s.board) hash.toNat := by rw [he]
+  rw [hb, hh]
   have : ¬ countRepetitions (fun i => (historySet s.history (plyClock s.board) hash.toNat).getD i 0)
       (plyClock s.board) (s.board.halfmove % 65536) ≥ 3 := by
     apply countRepetitions_inert _ _ _ r hhi
@@ -86,6 +97,11 @@ theorem isRep_enter_false {r : Nat} {s : St} (hz : HistZero r s) (hnf : pollFlag
     rw [if_neg (by omega), hz j hj]
     exact fun e => hne e.symm
   rw [decide_eq_false this, Bool.and_false]
+
+theorem isRep_enter_false {r : Nat} {s : St} (hz : HistZero r s) (hnf : pollFlag s = false) (hash : UInt64) (ply : Nat)
+    (hlo : r ≤ plyClock s.board) (hhi : plyClock s.board ≤ r + 3) (hne : hash.toNat ≠ 0) :
+    isRep (enter s hash) ply = false :=
+  isRep_enter_false' hz hash (enterShape_of_noFlag hnf hash) ply hlo hhi hne
 
 /-- the root node (`ply = 0`) is never tested -/
 theorem isRep_zero (s : St) : isRep s 0 = false := by
